@@ -321,6 +321,14 @@ class Sim:
         # (x, fun) in which fun is not the value it obtained at x, clauses
         # (b) and (c) have no well-defined "returned objective"
         consistent = drv.consistent(res.x, rf)
+        if consistent and any(
+                sp['type'] == 'thickness' and abs(self.physical(j)) < 1e-9
+                for j, sp in enumerate(self.vspecs)):
+            # two coincident surfaces: whether a ray "reaches" the second
+            # one is decided by the sign of a rounding error, so the merit
+            # function is not a function of the variables there
+            self.probe('degenerate_zero_gap_at_solution')
+            consistent = False
         if not consistent:
             self.stats['faults']['driver_inconsistent_pair'] = \
                 self.stats['faults'].get('driver_inconsistent_pair', 0) + 1
